@@ -533,6 +533,8 @@ class Loader:
             return self.modules[fullname]
         if "." in fullname:
             self.load(fullname.rsplit(".", 1)[0])
+            if fullname in self.modules:        # loaded as a side effect of the parent package
+                return self.modules[fullname]
         path, is_pkg = self._find(fullname)
         if path is None:
             raise ImportError("pyvc: no module %s under %s" % (fullname, ROOTS))
